@@ -80,6 +80,13 @@ namespace
         {
             auto key = key_by_value(arr->at(0));
             auto& value = arr->at(1);
+            // A hashmap must not contain itself, directly or through other containers
+            auto contains_map = [&](value::cref v) { return !v.empty() && (v.data().get() == data.get() || v.data()->reaches(data.get())); };
+            if (contains_map(key) || contains_map(value))
+            {
+                runtime.__logmsg(err::ArrayRecursion(runtime.context_active().current_frame().diag_info_from_position()));
+                return {};
+            }
             // ToDo: Check key-type matches
             data->map()[key] = value;
         }
